@@ -198,7 +198,9 @@ class MCLevyCopulaSimulation:
                 for j in range(i + 1, dimension):
                     adj_matrix[i, j] = adj_matrix[j, i] = next(outputs)
 
-        variance_matrix = np.dot(adj_matrix, adj_matrix.T) + model_variance
+        # adj_matrix holds the covariance of the small jumps (second moments over the central cell, see vol_adjustment_ij):
+        # it is added to the squared diffusion coefficients as it is, like vol_adjustment**2 in the one-dimensional chain
+        variance_matrix = adj_matrix + model_variance
         diffusion_matrix = scipy.linalg.sqrtm(variance_matrix)
         self.diffusion_matrix = diffusion_matrix
 
